@@ -9,7 +9,8 @@ Definition of_guard (g : option err) : result unit := match g with Some e => Err
 (* continuous/quantile_loss_impl.py :: quantile_score *)
 Definition quantile_score_m (fcst obs : larr) (alpha : xv) (rd pd : dimspec) (w : option larr) : result larr :=
   let specified := if truthy rd then rd else pd in
-  do _ <- (if is_none specified then Ok tt else check_dims (ldims fcst) specified MSuperset) ;;
+  do _ <- (if is_none specified || is_all specified then Ok tt
+           else check_dims (ldims fcst) (DList (as_list specified)) MSuperset) ;;
   do _ <- check_dims (ldims obs) (DList (ldims fcst)) MSubset ;;
   do _ <- of_guard (gen_guard_quantile_score alpha) ;;
   do R <- gather (ldims fcst) (ldims obs) None rd pd DNone ;;
